@@ -3,7 +3,11 @@ import math, struct, random
 
 RULE = ('bloom/hier/storage scripts from one PRNG: bit counts {0,1,63,64,65,100,1000,64(max=0)}, 0-4 hashers, '
         'key lengths 1..40 (all aHash length branches), adds, probes of every stored key + absent keys, to_raw, '
-        'file probes, off-load, merge, clear; a case is distinct by (config, op-kind multiset, outcome multiset)')
+        'file probes, off-load, merge, clear; hier stream: HierarchicalFilters<_, CombinedFilter, _> driven directly '
+        '(group 2..8, children with equal / disagreeing / absent / zero-bit blooms, push/pop/remove, '
+        'offload(needed in {0,1,8,..,max}, level 0..2) with its early returns; forward+reverse iteration, fast and async '
+        'check, root filter bytes and memory accounting compared with the Coq model Filter/Hier.v after every step); '
+        'a case is distinct by (config, op-kind multiset, outcome multiset)')
 ASSUMPTIONS = ['hash family is a parameter of the theorems; the aHash fallback model (Base/AHash.v) is tied to the '
                'crate by byte-exact comparison of Bloom::to_raw after adds',
                'float formula choosing the bit count is an input of the model (computed by the generator, '
@@ -142,6 +146,67 @@ def gen_storage_script(rng):
     return '\n'.join(L) + '\n'
 
 
+def gen_hier_script(rng):
+    """HierarchicalFilters<ArrayKey<K>, CombinedFilter, Child> driven directly: push (children with bloom
+    configs that may disagree, none, zero bits), pop, remove, offload(needed, level) with early returns,
+    and after every step: forward / reverse iteration, fast and async check for member and absent keys,
+    the root filter and the memory accounting."""
+    K = rng.choice([1, 2, 4, 8])
+    group = rng.choice([2, 2, 3, 4, 5, 8])
+    L = ['cfg K=%d dup=1 group=%d bloom=none init=eager runtime=ct' % (K, group), 'hier new %d' % group]
+    base = rng.choice(CONFIGS)
+    def key():
+        st = rng.random()
+        if st < 0.5:
+            return bytes([0] * (K - 1) + [rng.randrange(8)]).hex()
+        if st < 0.7:
+            return bytes([rng.choice([0, 255])] * K).hex()
+        return bytes(rng.randrange(256) for _ in range(K)).hex()
+    allkeys = []
+    def probes():
+        ks = set(rng.sample(allkeys, min(len(allkeys), 4))) if allkeys else set()
+        ks.add(key())
+        for k in sorted(ks):
+            L.append('hier iter %s' % k)
+            if rng.random() < 0.4:
+                L.append('hier iterrev %s' % k)
+            if rng.random() < 0.4:
+                L.append('hier fast %s' % k)
+            if rng.random() < 0.4:
+                L.append('hier check %s' % k)
+        if rng.random() < 0.5:
+            L.append('hier root')
+        if rng.random() < 0.5:
+            L.append('hier mem')
+    for step in range(rng.randrange(4, 26)):
+        x = rng.random()
+        if x < 0.55:
+            y = rng.random()
+            if y < 0.70:
+                c = base
+            elif y < 0.85:
+                c = rng.choice(CONFIGS)
+            else:
+                c = None
+            ks = [key() for _ in range(rng.choice([0, 1, 1, 2, 3, 5]))]
+            allkeys.extend(ks)
+            kl = ','.join(ks) if ks else '-'
+            if c is None:
+                L.append('hier push none - - %s' % kl)
+            else:
+                L.append('hier push %s %d %d %s' % (cfg_hex(c), c[1], bits_from_formula(c[0], c[1], c[2], c[4]), kl))
+        elif x < 0.65:
+            L.append('hier pop')
+        elif x < 0.77:
+            L.append('hier remove %d' % rng.randrange(0, 12))
+        elif x < 0.95:
+            L.append('hier offload %s %d' % (rng.choice(['max', 'max', '0', '1', '8', '16', '24', '40', '100']), rng.choice([0, 1, 1, 2])))
+        else:
+            L.append('hier len')
+        probes()
+    return '\n'.join(L) + '\n'
+
+
 def gen(tier, rng):
     n = 300 if tier == 'quick' else 6000
     out = []
@@ -149,6 +214,8 @@ def gen(tier, rng):
         out.append(('bloom%05d' % i, gen_bloom_script(rng)))
     for i in range(160 if tier == 'quick' else 4000):
         out.append(('stor%05d' % i, gen_storage_script(rng)))
+    for i in range(300 if tier == 'quick' else 6000):
+        out.append(('hier%05d' % i, gen_hier_script(rng)))
     return out
 
 
@@ -159,6 +226,7 @@ def oracle(lines, out, spec=None):
     keys = {}        # bloom id -> set of keys certainly in it
     rawkeys = {}     # raw id -> set of keys in it when captured (None if capture failed)
     offl = set()
+    hst = {'children': [], 'n': 0}
     stored = set()   # storage level: keys for which some record (marker included) was acknowledged
     for i, (l, o) in enumerate(zip(lines, out)):
         t = l.split()
@@ -170,6 +238,9 @@ def oracle(lines, out, spec=None):
             fails.append('line %d: check_filters says definitely-absent for stored key %s' % (i, t[1]))
         elif t[0] == 'CFS' and t[1] in stored and o == 'CFS no':
             fails.append('line %d: check_filter says definitely-absent for stored key %s' % (i, t[1]))
+        if t[0] == 'hier':
+            hier_oracle(hst, i, t, o, fails)
+            continue
         if t[0] != 'bloom':
             continue
         op = t[1]
@@ -199,6 +270,41 @@ def oracle(lines, out, spec=None):
     return fails
 
 
+def hier_oracle(hst, i, t, o, fails):
+    """children: list of key sets (None = vacated). A present child whose filter was built from a key must be
+    yielded by both iterators for that key; fast/async checks must answer Maybe; vacated children are never yielded."""
+    op = t[1]
+    ch = hst['children']
+    if op == 'new':
+        hst['children'] = []
+    elif op == 'push':
+        ks = set() if t[5] == '-' else set(t[5].split(','))
+        if o != 'hier push %d' % len(ch):
+            fails.append('line %d: push returned %s, expected id %d' % (i, o, len(ch)))
+        ch.append(ks)
+    elif op == 'pop':
+        idx = [j for j, c in enumerate(ch) if c is not None]
+        if idx:
+            ch[idx[-1]] = None
+    elif op == 'remove':
+        j = int(t[2])
+        if j < len(ch):
+            ch[j] = None
+    elif op in ('iter', 'iterrev'):
+        got = [] if o.split()[2] == '-' else [int(x) for x in o.split()[2].split(',')]
+        for j, c in enumerate(ch):
+            if c is not None and t[2] in c and j not in got:
+                fails.append('line %d: child %d holds key %s but the hierarchy does not yield it (%s)' % (i, j, t[2], o))
+        for j in got:
+            if j >= len(ch) or ch[j] is None:
+                fails.append('line %d: vacated or unknown child %d yielded' % (i, j))
+        if got != sorted(got, reverse=(op == 'iterrev')):
+            fails.append('line %d: iteration order %s' % (i, o))
+    elif op in ('fast', 'check'):
+        if any(c is not None and t[2] in c for c in ch) and o.endswith(' No'):
+            fails.append('line %d: %s says definitely-absent for key %s held by a present child' % (i, op, t[2]))
+
+
 def classify(known, lines, out, msg):
     return msg.startswith('[%s]' % known['id'])
 
@@ -207,6 +313,13 @@ def signature(lines, out):
     if len(lines) > 1 and lines[1] == 'open':
         from . import common as C
         return C.ops_signature(lines, out)
+    if len(lines) > 1 and lines[1].startswith('hier new'):
+        ops = {}
+        for l, o in zip(lines, out):
+            t = l.split()
+            k = (t[1], t[2] if t[1] == 'offload' else '', t[3] if t[1] == 'offload' else '', o.split()[2] if t[1] in ('pop', 'remove', 'fast', 'check') else '')
+            ops[k] = ops.get(k, 0) + 1
+        return hash((lines[0], tuple(sorted(ops.items()))))
     cfgs = tuple(l.split()[3] for l in lines if l.startswith('bloom new'))
     ops = {}
     for l, o in zip(lines, out):
